@@ -153,4 +153,19 @@ def lowerEntrySpec (e : Entry) : Entry :=
 def lowerSpec (d : BibData) : BibData :=
   { entries := d.entries.map lowerEntrySpec, preamble := d.preamble }
 
+/-! ### chains of formats -/
+
+/-- the domain of one format -/
+def inDomain (f : Fmt) (d : BibData) : Bool :=
+  match f with
+  | .bibtex => WFDb d
+  | .yaml => WFDbTree true d
+  | .bibtexml => WFDbTree false d
+
+/-- what a chain of formats yields: the entries untouched; the preamble as one string, lost when
+BibTeXML is on the way -/
+def chainDb (fs : List Fmt) (d : BibData) : BibData :=
+  { entries := d.entries,
+    preamble := if fs = [] then d.preamble else if fs.contains .bibtexml then [] else canonPreamble d }
+
 end Pybtex.BibWrite
